@@ -64,6 +64,7 @@ type Obligation struct {
 
 // FV verifies one function (with its inlined callees).
 type FV struct {
+	inBinder  int // >0 while translating the body of a quantifier
 	eng       *Engine
 	top       *ssa.Function
 	con       *Contract
@@ -184,6 +185,9 @@ func (v *FV) declare(prefix, sort string) Term {
 func (v *FV) define(prefix, sort string, t Term) Term {
 	if len(t) < 24 && !strings.ContainsAny(t, " ") {
 		return t
+	}
+	if v.inBinder > 0 {
+		return t // the term may mention a bound variable: no top-level definition
 	}
 	n := v.freshName(prefix)
 	v.emit(fmt.Sprintf("(define-fun %s () %s %s)", n, sort, t))
@@ -464,7 +468,14 @@ func (v *FV) typeFacts(t Term, ty types.Type) Term {
 	case *types.Slice:
 		z := v.idxLit(0)
 		le := v.cmpOp("<=", true)
-		return fmt.Sprintf("(and (%s %s (sl_off %s)) (%s %s (sl_len %s)) (%s (sl_len %s) (sl_cap %s)) (>= (sl_arr %s) 0))", le, z, t, le, z, t, le, t, t, t)
+		base := fmt.Sprintf("(and (%s %s (sl_off %s)) (%s %s (sl_len %s)) (%s (sl_len %s) (sl_cap %s)) (>= (sl_arr %s) 0))", le, z, t, le, z, t, le, t, t, t)
+		if sz := types.SizesFor("gc", "amd64").Sizeof(u.Elem()); sz > 0 && v.mode == ModeBV {
+			// the runtime cannot allocate more than 2^48 bytes (maxAlloc on 64-bit linux)
+			v.trusted["runtime: a slice of non-empty elements spans at most 2^48 elements (maxAlloc)"] = true
+			lim := v.idxLit(1 << 48)
+			return fmt.Sprintf("(and %s (%s (sl_off %s) %s) (%s (sl_cap %s) %s))", base, le, t, lim, le, t, lim)
+		}
+		return base
 	case *types.Struct:
 		var fs []string
 		for i := 0; i < u.NumFields(); i++ {
@@ -760,6 +771,10 @@ func (v *FV) fieldArray(structT types.Type, i int) (string, types.Type) {
 }
 
 func (v *FV) cellArray(t types.Type) string {
+	if at, ok := t.Underlying().(*types.Array); ok {
+		// an array variable is a backing store: slices of it alias it
+		return v.elemArray(at.Elem())
+	}
 	s := v.sortOf(t)
 	name := "C_" + mangle(s)
 	v.regArray(name, fmt.Sprintf("(Array Int %s)", s))
